@@ -10,6 +10,7 @@ RULE = ("case = propagator-level model + entry point (enumerate / first solution
         "domains, and the sequence must equal the extracted model's; non-trivial = at least one assignment yielded")
 FAMILIES = [
     Family("entries_random", "solve", ec.gen_models(ec.entry_any, 12000, 600000), nontrivial=ec.nontrivial_solve, prop_judge=plevel.judge_solve),
+    Family("entries_alldiff_wide", "solve", ec.gen_alldiff_wide(ec.entry_any, 2000, 60000), nontrivial=ec.nontrivial_solve, prop_judge=plevel.judge_solve),
     Family("entries_structured", "solve", ec.structured, nontrivial=ec.nontrivial_solve, prop_judge=plevel.judge_solve),
 ]
 
